@@ -9,6 +9,7 @@
 //!   A5  Decomposed with an unknown top-level field is rejected
 //!   A6  a write acknowledged with Ok is complete on the medium
 //!   A7  a Decomposed field that never arrived (read error / truncation) is not invented
+//!   A8  (byte lane) on bit-flipped text Decomposed's impl agrees with its derive+deny_unknown_fields mirror
 //!   A9  whatever else happened: Ok never carries a value that was not delivered for that field
 //!   AP  a stored record whose leaves are arbitrary finite bit patterns reads back bit-exact
 //!   AR  once faults stop, the next attempt succeeds
@@ -22,7 +23,7 @@ use crate::subject::*;
 use serde::{Deserialize, Serialize};
 use std::panic::{catch_unwind, AssertUnwindSafe};
 
-pub const ASSERT_IDS: [&str; 10] = ["A1", "A2", "A3", "A4", "A5", "A6", "A7", "A9", "AP", "AR"];
+pub const ASSERT_IDS: [&str; 11] = ["A1", "A2", "A3", "A4", "A5", "A6", "A7", "A8", "A9", "AP", "AR"];
 
 pub fn assert_index(id: &str) -> usize {
     ASSERT_IDS.iter().position(|x| *x == id).unwrap_or(0)
@@ -69,6 +70,24 @@ pub struct Outcome {
     /// delivered order of the top-level record (original indices; 0x80|i for injected entries)
     pub top_order: Vec<u8>,
     pub detail: Option<RunDetail>,
+    /// byte lane only
+    pub jstats: JStats,
+}
+
+/// Byte-lane fault counters: what actually fired in this run.
+#[derive(Default, Clone, Copy, Debug)]
+pub struct JStats {
+    pub w_short: u32,
+    pub w_eintr: u32,
+    pub r_short: u32,
+    pub r_eintr: u32,
+    pub r_ioerr: u32,
+    pub trunc: u32,
+    pub flip: u32,
+    pub format_lossy: bool,
+    pub is_json: bool,
+    pub escaped_keys: bool,
+    pub reader: u8,
 }
 
 /// Filled only when tracing (replay / samples).
@@ -82,6 +101,8 @@ pub struct RunDetail {
     pub rtrace: Vec<(RStep, u8)>,
     /// keyed records of the stored tree: (path, keys)
     pub records: Vec<(Vec<u8>, Vec<String>)>,
+    /// byte lane: length of the text cgmath wrote
+    pub json_len: u32,
 }
 
 #[derive(Clone, Copy, Default)]
@@ -208,7 +229,7 @@ pub fn check_structure(
     }
 }
 
-fn leaf_mut<'a>(root: &'a mut Node, path: &[u8]) -> Option<&'a mut Node> {
+pub fn leaf_mut<'a>(root: &'a mut Node, path: &[u8]) -> Option<&'a mut Node> {
     let mut cur = root;
     let mut i = 0;
     loop {
